@@ -96,6 +96,8 @@ func main() {
 	switch os.Args[1] {
 	case "seq":
 		cmdSeq(os.Args[2:])
+	case "enum":
+		cmdEnum(os.Args[2:])
 	default:
 		fmt.Fprintf(os.Stderr, "unknown command %q\n", os.Args[1])
 		os.Exit(2)
